@@ -387,7 +387,7 @@ int main(int argc, char **argv)
 	vrt_add_class("dq_state", CLS_ST);
 	vrt_add_class("dq_atomic_flags", CLS_FL);
 	vrt_add_class("du_state", CLS_DU);
-	vrt_set_hang_seconds(20);
+	vrt_set_hang_seconds(40);
 	(void)vrt_tid();
 	g_cancel_sem = dispatch_semaphore_create(0);
 	vrt_set_steer(steer);
